@@ -233,7 +233,7 @@ pub async fn run_a(c: &CaseA) -> Result<InfoA, String> {
                         }
                         deliveries[seq].id = id;
                         if settled != deliveries[seq].presettled {
-                            return Err(format!("{}: transfer of message {seq} has settled={settled}, the application asked for {}", $what, deliveries[seq].presettled));
+                            return Err(format!("{}: transfer of message {seq} has settled={settled}, the negotiated mode and the request call for {}", $what, deliveries[seq].presettled));
                         }
                     }
                     "disposition" => {
@@ -305,7 +305,8 @@ pub async fn run_a(c: &CaseA) -> Result<InfoA, String> {
                 let seq = deliveries.len() as u32;
                 deliveries.push(D { id: u32::MAX, presettled: pre, outcome: if pre { Some(Out::Accepted) } else { None }, remote_settled: pre });
                 let (dtx, drx) = oneshot::channel();
-                tx.send(CmdA::Send(*link as usize, pre, seq, dtx)).await.map_err(|_| "app gone".to_string())?;
+                // the request is passed as generated: under snd-settle-mode unsettled it is documented to be ignored
+                tx.send(CmdA::Send(*link as usize, *presettled, seq, dtx)).await.map_err(|_| "app gone".to_string())?;
                 drx.await.map_err(|_| "app dropped reply".to_string())??;
                 step!(what);
             }
